@@ -52,6 +52,7 @@ def Ex(e): return St("expr", a=[e])
 def Assert(e): return St("assert", a=[e])
 def Match(e, arms): return St("match", a=[e], arms=arms)
 def Block(body): return St("block", b=body)
+def Unsafe(body): return St("unsafe", b=body)
 def Println(e): return Ex(Call("println", e))
 def Print(e): return Ex(Call("print", e))
 
@@ -61,7 +62,11 @@ def Func(name, params, ret, body):
     return {"n": name, "params": [p for p, _ in params], "ptys": [t for _, t in params], "ret": ret, "body": list(body)}
 
 
-def Program(funcs, structs=(), enums=(), unions=(), globals_=(), shadows=()):
+def Extern(name, params, ret):
+    return {"n": name, "params": [p for p, _ in params], "ptys": [t for _, t in params], "ret": ret}
+
+
+def Program(funcs, structs=(), enums=(), unions=(), globals_=(), shadows=(), externs=()):
     """structs: [(name, [(field, type)])]; enums: [(name, [(variant, value)])];
     unions: [(name, [(variant, [(field, type)])])]; globals_: [(name, type, mut, init)];
     shadows: [(fn, [stmts])]"""
@@ -73,6 +78,7 @@ def Program(funcs, structs=(), enums=(), unions=(), globals_=(), shadows=()):
         "globals": [{"n": n, "t": t, "m": 1 if m else 0, "init": init} for n, t, m, init in globals_],
         "funcs": list(funcs),
         "shadows": [{"fn": f, "b": list(b)} for f, b in shadows],
+        "externs": list(externs),
     }
 
 
@@ -155,6 +161,7 @@ def ps(s, ind, style):
             r += " else " + blk(s["c"])
         return r + "\n"
     if k == "block": return pad + blk(s["b"]) + "\n"
+    if k == "unsafe": return pad + "unsafe " + blk(s["b"]) + "\n"
     if k == "while": return "%swhile %s %s\n" % (pad, pe(s["a"][0], style), blk(s["b"]))
     if k == "for":
         return "%sfor %s in (range %s %s) %s\n" % (pad, s["s"], pe(s["a"][0], style), pe(s["a"][1], style), blk(s["b"]))
@@ -171,6 +178,8 @@ def ps(s, ind, style):
 
 def pretty(p, style="prefix", default_shadows=True):
     out = []
+    for ex in p.get("externs", []):
+        out.append("extern fn %s(%s) -> %s\n" % (ex["n"], ", ".join("%s: %s" % (a, t) for a, t in zip(ex["params"], ex["ptys"])), ex["ret"]))
     for st in p["structs"]:
         out.append("struct %s {\n%s\n}\n" % (st["n"], ",\n".join("    %s: %s" % (f, t) for f, t in zip(st["fields"], st["ftys"]))))
     for en in p["enums"]:
@@ -268,6 +277,10 @@ def annotate_types(p):
             walk(s["b"]); walk(s["c"])
             for arm in s["arms"]:
                 walk(arm["b"])
+    p.setdefault("externs", [])
+    for f in p["externs"]:
+        f["ptyS"] = [parse_type(t, p) for t in f["ptys"]]
+        f["retS"] = parse_type(f["ret"], p)
     for f in p["funcs"]:
         f["ptyS"] = [parse_type(t, p) for t in f["ptys"]]
         f["retS"] = parse_type(f["ret"], p)
